@@ -16,7 +16,7 @@ enum { A_VALUE, A_EXC, A_DROP, A_NOTHING, A_ASYNC_VALUE, A_ASYNC_THROW, A_COUNT,
        A_BIND,                        // auto fn = shared.bind(value); fn()
        A_UNHANDLED,                   // catch (...) { shared.unhandled_exception(); }
        A_DEFAULT_DTOR,                // promise_with_default<T> d(std::move(shared), dflt); ~d - resolves to the default value
-       A_BIND_DROP,                   // (single resolver only) { auto fn = shared.bind(value); }  - the bound object dies uncalled: no-value
+       A_BIND_DROP,                   // { auto fn = shared.bind(value); }  - the bound object dies uncalled: no-value if the bind obtained the promise (not observable from outside)
        A_ALL };
 // waiter kinds
 enum { W_COAWAIT, W_HASVALUE, W_WAIT, W_SYNC, W_SUBSCRIBE, W_CALLBACK_AWAIT, W_POLL, W_FORCE_WAIT_IN_CORO, W_OPERATOR_BOOL, W_COUNT,
@@ -56,7 +56,7 @@ inline Prog decode(hz::Reader &r, Mode m) {
     for (auto &x : p.res) { unsigned e = r.mod(8); if (e >= 3) x.action = (uint8_t)(A_MOVE_THEN_VALUE + (e - 3)); }
     for (auto &x : p.wai) { unsigned e = r.mod(8); if (e == 7) x.kind = W_PARALLEL; }
     { unsigned e = r.mod(8); if (m != M_C01 && e >= 5) { p.factory = (uint8_t)(e - 4); p.moves = 0; p.assign_over = false; for (auto &x : p.res) x.action = A_NOTHING; } }
-    { unsigned e = r.mod(4); if (m != M_C01 && p.res.size() == 1 && e == 3 && !p.factory) for (auto &x : p.res) if (x.action == A_BIND || x.action == A_VALUE) x.action = A_BIND_DROP; }
+    { unsigned e = r.mod(4); if (e == 3 && !p.factory) for (auto &x : p.res) if (x.action == A_BIND) x.action = A_BIND_DROP; }
     return p;
 }
 
@@ -147,7 +147,7 @@ struct Ctx {
         else if constexpr (VT == 2) { auto fn = prom->bind(val::MoveOnly(value_of(i))); (void)fn; }
         else if constexpr (VT == 3) { auto fn = prom->bind(slots[i]); (void)fn; }
         else { auto fn = prom->bind(val::Counted(value_of(i))); (void)fn; }
-        return true;             // (the only resolver of the case: the bound object owned the promise)
+        return true;
     }
     bool default_dtor(int i) {
         if constexpr (VT == 0 || VT == 2 || VT == 4) {
@@ -190,7 +190,7 @@ void resolver_thread(Ctx<VT> &c, int i) {
         case A_MOVE_THEN_VALUE: { cocls::promise<typename Tr<VT>::T> mine(std::move(*c.prom)); hz::upoint(); r.won = c.call_value_on(mine, i); } break;
         case A_MOVE_ASSIGN_DTOR: { cocls::promise<typename Tr<VT>::T> mine; mine = std::move(*c.prom); r.won = (bool)mine; hz::upoint(); } break;
         case A_BIND: r.won = c.call_bound(i); break;
-        case A_BIND_DROP: r.won = c.bound_dropped(i); break;
+        case A_BIND_DROP: c.bound_dropped(i); r.won = -2; break;       // (-2: whether the bound object obtained the promise cannot be told from outside)
         case A_UNHANDLED: try { throw val::TestExc(i); } catch (...) { r.won = c.prom->unhandled_exception(); } break;
         case A_DEFAULT_DTOR: r.won = c.default_dtor(i); break;
         case A_ASYNC_VALUE: case A_ASYNC_THROW: {
@@ -411,12 +411,13 @@ void run_t(const Prog &p, Mode mode) {
         for (auto &t : wt) t.join();
 
         // ---- oracle ----
-        int winners = 0, winner = -1, acted = 0;
+        int winners = 0, winner = -1, acted = 0; bool silent_claimant = false;
         for (size_t i = 0; i < c.r.size(); i++) {
+            if (c.r[i].action == A_BIND_DROP) { silent_claimant = true; continue; }       // may have obtained the promise; its effect is no-value either way
             if (c.r[i].action != A_NOTHING) acted++;
             if (c.r[i].won == 1) { winners++; winner = (int)i; }
         }
-        HZ_CHECK(winners == (acted ? 1 : 0), "%d resolver calls reported success (%d resolvers acted): exactly one resolution must take effect", winners, acted);
+        HZ_CHECK(winners <= 1 && (winners == 1 || acted == 0 || silent_claimant), "%d resolver calls reported success (%d resolvers acted): exactly one resolution must take effect", winners, acted);
         int expect = winner >= 0 ? c.expected_code(c.r[winner].action, winner) : -1;
         if (p.factory) expect = p.factory == 1 ? (VT == 1 ? 0 : Ctx<VT>::value_of(7)) : p.factory == 2 ? 1007 : -1;
         int final1 = c.observe();
